@@ -1,6 +1,7 @@
 import Uds.Lemmas.Py
 import Uds.Lemmas.MemLoc
 import Uds.Model.Entry
+import Uds.Props.C19
 /-
   C07 — out-of-domain arguments are rejected before sending; the accepted domain is exactly the documented one.
   For every request builder: `make_request` succeeds **iff** the arguments are in the documented domain
@@ -966,8 +967,8 @@ def simpleInDomain (std : Nat) : Entry → Prop
   | .transferData s _ => 0 ≤ s ∧ s ≤ 0xFF
   | .transferExit _ => True
   | .clearDtc g m => 0 ≤ g ∧ g ≤ 0xFFFFFF ∧ ∀ x, m = some x → (2020 ≤ std ∧ 0 ≤ x ∧ x ≤ 0xFF)
-  | .commControl _ _ _ => True          -- stated separately (`commControl_accepts`)
-  | .linkControl _ _ => True            -- baud-rate objects: C19 + correspondence
+  | .commControl _ _ _ => True          -- stated separately: `commControl_accepts_iff`
+  | .linkControl _ _ => True            -- stated separately: `linkControl_accepts_iff`
 
 theorem simple_accepts_iff (std : Nat) (e : Entry) (hk : ∀ a b c, e ≠ .commControl a b c) (hl : ∀ a b, e ≠ .linkControl a b) :
     (∃ r, e.makeRequest std = .ok r) ↔ simpleInDomain std e := by
@@ -1011,6 +1012,231 @@ theorem simple_accepts_iff (std : Nat) (e : Entry) (hk : ∀ a b c, e ≠ .commC
         · exact absurd hf id
         · exact ⟨g1, g2, by omega, hx.1, hx.2⟩
       · rintro ⟨g1, g2, hs, x1, x2⟩; exact ⟨_, (), ⟨g1, g2⟩, Or.inr ⟨by omega, (), ⟨x1, x2⟩, rfl⟩⟩
+
+/-! ### communication_control and link_control (the two entries `simple_accepts_iff` leaves out) -/
+
+theorem commtype_ok_iff (c : Nat) : (∃ x, CommType.fromByte c = .ok x) ↔ (c ≤ 0xFF ∧ c &&& 0x03 ≠ 0 ∧ c &&& 0x0C = 0) := by
+  by_cases hc : c ≤ 0xFF
+  · have := Uds.Props.C19.commtype_accepts_all ⟨c, by omega⟩
+    simp only at this
+    constructor
+    · rintro ⟨x, hx⟩
+      rw [hx] at this
+      simp only [Bool.true_eq, Bool.and_eq_true, decide_eq_true_eq] at this
+      exact ⟨hc, this.1, this.2⟩
+    · rintro ⟨_, h1, h2⟩
+      cases hf : CommType.fromByte c with
+      | ok x => exact ⟨x, rfl⟩
+      | error e =>
+        rw [hf] at this
+        simp [h1, h2] at this
+  · constructor
+    · rintro ⟨x, hx⟩
+      rw [Uds.Props.C19.commtype_rejects_wide c (by omega)] at hx; cases hx
+    · rintro ⟨h, _⟩; exact absurd h hc
+
+theorem commtype_byte_lt (c : Nat) (x : CommType) (h : CommType.fromByte c = .ok x) : x.toByte < 256 := by
+  have hc : c ≤ 0xFF := ((commtype_ok_iff c).1 ⟨x, h⟩).1
+  have := Uds.Props.C19.commtype_encode_decode c (by omega) x h
+  omega
+
+def commInDomain (std : Nat) (ct : Int) (c : Nat) (node : Option Int) : Prop :=
+  0 ≤ ct ∧ ct ≤ 0x7F ∧ (c ≤ 0xFF ∧ c &&& 0x03 ≠ 0 ∧ c &&& 0x0C = 0) ∧
+  (node.isSome = true ↔ (2013 ≤ std ∧ (ct = 4 ∨ ct = 5))) ∧ ∀ n, node = some n → 0 ≤ n ∧ n ≤ 0xFFFF
+
+/-- **communication_control**: accepted exactly on the documented domain (control type 7 bits, a message type selected and reserved bits
+    clear in the communication type, a 16-bit node identifier exactly when the 2013+ editions require one) -/
+theorem commControl_accepts_iff (std : Nat) (ct : Int) (c : Nat) (node : Option Int) :
+    (∃ r, commControlMakeRequest std ct c node = .ok r) ↔ commInDomain std ct c node := by
+  unfold commInDomain
+  rw [← commtype_ok_iff]
+  simp only [commControlMakeRequest, bind_ok, validateInt_ok, ite_throw_bind_ok]
+  constructor
+  · rintro ⟨r, _, ⟨h1, h2⟩, hA, hB, x, hx, p, hp, hr⟩
+    refine ⟨h1, h2, ⟨x, hx⟩, ?_, ?_⟩
+    · cases node with
+      | none =>
+        simp only [Option.isSome_none, Bool.false_eq_true, false_iff]
+        intro hreq
+        apply hA
+        simp [hreq.1, hreq.2]
+      | some n =>
+        simp only [Option.isSome_some, true_iff]
+        by_cases hreq : (decide (std ≥ 2013) && (ct == 4 || ct == 5)) = true
+        · simp only [Bool.and_eq_true, decide_eq_true_eq, Bool.or_eq_true, beq_iff_eq] at hreq
+          exact hreq
+        · exfalso; apply hB; simp [hreq]
+    · intro n hn
+      subst hn
+      simp only [bind_ok, validateInt_ok, pure_ok] at hr
+      obtain ⟨_, h, _⟩ := hr
+      exact h
+  · rintro ⟨h1, h2, ⟨x, hx⟩, hnode, hn⟩
+    have hp : packB x.toByte = .ok [UInt8.ofNat x.toByte] := packB_ok.2 ⟨commtype_byte_lt c x hx, rfl⟩
+    cases node with
+    | none =>
+      have hreq : ¬ (2013 ≤ std ∧ (ct = 4 ∨ ct = 5)) := by
+        intro h; have := hnode.2 h; simp at this
+      refine ⟨_, (), ⟨h1, h2⟩, ?_, ?_, x, hx, _, hp, rfl⟩
+      · intro hc
+        simp only [Option.isNone_none, Bool.and_true, Bool.and_eq_true, decide_eq_true_eq, Bool.or_eq_true, beq_iff_eq] at hc
+        exact hreq hc
+      · simp
+    | some n =>
+      have hreq : 2013 ≤ std ∧ (ct = 4 ∨ ct = 5) := hnode.1 rfl
+      obtain ⟨n1, n2⟩ := hn n rfl
+      refine ⟨mkReq "CommunicationControl" (some ct.toNat) (some ([UInt8.ofNat x.toByte] ++ toBE 2 n.toNat)), (), ⟨h1, h2⟩, ?_, ?_, x, hx, _, hp, ?_⟩
+      · simp
+      · intro hc
+        simp only [Option.isSome_some, Bool.and_true, Bool.not_eq_true', Bool.and_eq_false_iff, decide_eq_false_iff_not, Bool.or_eq_false_iff,
+          beq_eq_false_iff_ne] at hc
+        rcases hc with hc | hc
+        · exact hc hreq.1
+        · rcases hreq.2 with h | h
+          · exact hc.1 h
+          · exact hc.2 h
+      · simp only [bind_ok, validateInt_ok, pure_ok]
+        exact ⟨(), ⟨n1, n2⟩, trivial⟩
+
+def baudEff (b : Baudrate) : Option Nat :=
+  match b.baudtype with
+  | .identifier => (baudrateMap.find? (·.2 == b.baudrate)).map (·.1)
+  | _ => some b.baudrate
+
+/-- documented domain of link_control: a baud rate exactly with control types 1 and 2; type 2 sends the effective rate on 3 bytes
+    (a standard identifier stands for its rate); type 1 needs one of the standard rates (or a baud-rate identifier, sent as it is) -/
+def linkInDomain (ct : Int) (baud : Option Baudrate) : Prop :=
+  0 ≤ ct ∧ ct ≤ 0x7F ∧ ((ct = 1 ∨ ct = 2) ↔ baud.isSome = true) ∧
+  ∀ b, baud = some b →
+    (ct = 2 → ∃ e, baudEff b = some e ∧ e ≤ 0xFFFFFF) ∧
+    (ct = 1 → b.baudtype ≠ .identifier → (baudFixedId b.baudrate).isSome = true)
+
+theorem effective_ok (b : Baudrate) (e : Nat) : b.effective = .ok e ↔ baudEff b = some e := by
+  unfold Baudrate.effective baudEff
+  cases b.baudtype <;> simp only
+  · simp [pure, Except.pure]
+  · simp [pure, Except.pure]
+  · cases h : baudrateMap.find? (fun x => x.2 == b.baudrate) with
+    | none => simp [throw, throwThe, MonadExceptOf.throw]
+    | some x => simp [pure, Except.pure]
+
+theorem getBytes_ok (b : Baudrate) : (∃ bs, b.getBytes = .ok bs) ↔ (b.baudtype = .fixed → (baudFixedId b.baudrate).isSome = true) := by
+  unfold Baudrate.getBytes
+  cases hb : b.baudtype <;> simp only
+  · cases hf : baudFixedId b.baudrate with
+    | none => simp [throw, throwThe, MonadExceptOf.throw]
+    | some i => simp [pure, Except.pure]
+  · simp [pure, Except.pure]
+  · simp [pure, Except.pure]
+
+theorem mkNat_specific (e : Nat) (x : Baudrate) : Baudrate.mkNat e (some (some .specific)) = .ok x ↔ (e ≤ 0xFFFFFF ∧ x = ⟨e, .specific⟩) := by
+  simp only [Baudrate.mkNat]
+  by_cases h : e > 0xFFFFFF
+  · simp [h]; omega
+  · simp [h, pure, Except.pure]; constructor
+    · intro hx; exact ⟨by omega, hx.symm⟩
+    · intro hx; exact hx.2.symm
+
+theorem mkNat_fixed (e : Nat) (x : Baudrate) : Baudrate.mkNat e (some (some .fixed)) = .ok x ↔ ((baudFixedId e).isSome = true ∧ x = ⟨e, .fixed⟩) := by
+  simp only [Baudrate.mkNat]
+  cases h : baudFixedId e with
+  | none => simp
+  | some i => simp [pure, Except.pure]; exact eq_comm
+
+/-- what `linkBaud` + `getBytes` need, per control type and baud-rate type -/
+theorem linkBaud_bytes_ok (ct : Int) (b : Baudrate) :
+    (∃ b' bs, linkBaud ct b = .ok b' ∧ b'.getBytes = .ok bs) ↔
+      ((ct = 2 → ∃ e, baudEff b = some e ∧ e ≤ 0xFFFFFF) ∧
+       (ct ≠ 2 → b.baudtype ≠ .identifier → (baudFixedId b.baudrate).isSome = true ∨ (ct ≠ 1 ∧ b.baudtype = .specific))) := by
+  unfold linkBaud
+  by_cases h2 : ct = 2
+  · subst h2
+    simp only [beq_self_eq_true, if_true, Baudrate.makeNewType, show (BaudType.specific == BaudType.identifier) = false by decide, Bool.false_eq_true,
+      if_false, bind_ok, effective_ok, mkNat_specific, ne_eq, not_true_eq_false, false_implies, and_true, forall_const]
+    constructor
+    · rintro ⟨b', bs, ⟨e, he, hle, rfl⟩, _⟩; exact ⟨e, he, hle⟩
+    · rintro ⟨e, he, hle⟩
+      exact ⟨⟨e, .specific⟩, [UInt8.ofNat ((e >>> 16) &&& 0xFF), UInt8.ofNat ((e >>> 8) &&& 0xFF), UInt8.ofNat (e &&& 0xFF)], ⟨e, he, hle, rfl⟩, rfl⟩
+  · have h2' : (ct == 2) = false := by simpa using h2
+    simp only [h2', Bool.false_eq_true, if_false, h2, false_implies, true_and, ne_eq, not_false_eq_true, forall_const]
+    by_cases hc : (ct == 1 && b.baudtype == BaudType.specific) = true
+    · simp only [hc, if_true, Baudrate.makeNewType, show (BaudType.fixed == BaudType.identifier) = false by decide, Bool.false_eq_true, if_false, bind_ok,
+        effective_ok, mkNat_fixed]
+      simp only [Bool.and_eq_true, beq_iff_eq] at hc
+      obtain ⟨h1, hsp⟩ := hc
+      have heff : baudEff b = some b.baudrate := by simp [baudEff, hsp]
+      constructor
+      · rintro ⟨b', bs, ⟨e, he, hfx, rfl⟩, _⟩ _
+        rw [heff] at he; cases he
+        exact Or.inl hfx
+      · intro h
+        have hne : ¬ b.baudtype = .identifier := by rw [hsp]; decide
+        rcases h hne with hfx | ⟨hn1, _⟩
+        · refine ⟨⟨b.baudrate, .fixed⟩, ?_, ⟨b.baudrate, heff, hfx, rfl⟩, ?_⟩
+          · exact [UInt8.ofNat ((baudFixedId b.baudrate).getD 0)]
+          · cases hf : baudFixedId b.baudrate with
+            | none => simp [hf] at hfx
+            | some i => simp [Baudrate.getBytes, hf, pure, Except.pure]
+        · exact absurd h1 hn1
+    · simp only [hc, Bool.false_eq_true, if_false, pure_ok]
+      have hex : (∃ b' bs, b = b' ∧ b'.getBytes = Except.ok bs) ↔ ∃ bs, b.getBytes = .ok bs := by
+        constructor
+        · rintro ⟨_, bs, rfl, h⟩; exact ⟨bs, h⟩
+        · rintro ⟨bs, h⟩; exact ⟨b, bs, rfl, h⟩
+      rw [hex, getBytes_ok]
+      simp only [Bool.and_eq_true, beq_iff_eq, not_and] at hc
+      constructor
+      · intro h hni
+        cases hbt : b.baudtype with
+        | fixed => exact Or.inl (h hbt)
+        | specific => exact Or.inr ⟨fun h1 => hc h1 hbt, rfl⟩
+        | identifier => exact absurd hbt hni
+      · intro h hfx
+        have hni : ¬ b.baudtype = .identifier := by rw [hfx]; decide
+        rcases h hni with h | ⟨_, hsp⟩
+        · exact h
+        · rw [hfx] at hsp; cases hsp
+
+/-- **link_control**: accepted exactly on the documented domain -/
+theorem linkControl_accepts_iff (ct : Int) (baud : Option Baudrate) :
+    (∃ r, linkControlMakeRequest ct baud = .ok r) ↔ linkInDomain ct baud := by
+  unfold linkInDomain linkControlMakeRequest linkCheckPresence
+  simp only [bind_ok, validateInt_ok]
+  cases baud with
+  | none =>
+    simp only [Option.isNone_none, Option.isSome_none, pure_ok, Bool.false_eq_true, iff_false, not_or, reduceCtorEq, false_implies, implies_true, and_true]
+    constructor
+    · rintro ⟨r, _, ⟨h0, h1⟩, _, hp, _⟩
+      refine ⟨h0, h1, ?_⟩
+      by_cases h12 : (ct == 1 || ct == 2) = true
+      · rw [if_pos h12] at hp; simp [guardPy] at hp
+      · simpa using h12
+    · rintro ⟨h0, h1, hn1, hn2⟩
+      have h12 : ¬ (ct == 1 || ct == 2) = true := by simp [hn1, hn2]
+      exact ⟨_, (), ⟨h0, h1⟩, (), by rw [if_neg h12]; rfl, rfl⟩
+  | some b =>
+    simp only [Option.isNone_some, Option.isSome_some, iff_true, bind_ok, pure_ok, Option.some.injEq, forall_eq']
+    constructor
+    · rintro ⟨r, _, ⟨h0, h1⟩, _, hp, b', hb', bs, hbs, _⟩
+      have h12 : ct = 1 ∨ ct = 2 := by
+        by_cases hx : (ct == 1 || ct == 2) = true
+        · simpa using hx
+        · rw [if_neg hx] at hp; simp [guardPy] at hp
+      obtain ⟨hA, hB⟩ := (linkBaud_bytes_ok ct b).1 ⟨b', bs, hb', hbs⟩
+      refine ⟨h0, h1, h12, hA, ?_⟩
+      intro hc1 hni
+      have hn2 : ct ≠ 2 := by omega
+      rcases hB hn2 hni with h | ⟨hn1, _⟩
+      · exact h
+      · exact absurd hc1 hn1
+    · rintro ⟨h0, h1, h12, hA, hB⟩
+      have hx : (ct == 1 || ct == 2) = true := by simpa using h12
+      have hB' : ct ≠ 2 → b.baudtype ≠ .identifier → (baudFixedId b.baudrate).isSome = true ∨ (ct ≠ 1 ∧ b.baudtype = .specific) := by
+        intro hn2 hni
+        have h1' : ct = 1 := by rcases h12 with h | h; exact h; exact absurd h hn2
+        exact Or.inl (hB h1' hni)
+      obtain ⟨b', bs, hb', hbs⟩ := (linkBaud_bytes_ok ct b).2 ⟨hA, hB'⟩
+      exact ⟨_, (), ⟨h0, h1⟩, (), by rw [if_pos hx]; rfl, b', hb', bs, hbs, rfl⟩
 
 /-! ### non-vacuity: concrete in-domain and out-of-domain instances -/
 example : wdbiInDomain { entries := [(0x1234, some 2)] } 0x1234 [0xBE, 0xEF] := by
